@@ -64,7 +64,7 @@ func (e *Engine) FindSubmatchAt(haystack []byte, at int) *MatchWithCaptures {
 func (e *Engine) findSubmatchAtWithState(haystack []byte, at int, state *SearchState) *MatchWithCaptures {
 	// For position 0, try OnePass DFA if available (10-20x faster for anchored patterns).
 	// OnePass handles captures natively — no need for two-phase search.
-	if at == 0 && e.onepass != nil && state.onepassCache != nil {
+	if at == 0 && e.onepass != nil && state.onepassCache != nil && !e.longest {
 		atomic.AddUint64(&e.stats.OnePassSearches, 1)
 		slots := e.onepass.Search(haystack, state.onepassCache)
 		if slots != nil {
@@ -214,7 +214,7 @@ func (e *Engine) findAllIndicesLoop(haystack []byte, n int, results [][2]int) []
 	// DFA fast path: call DFA functions directly, skip meta prefilter layer.
 	// SearchFirstAt has integrated prefilter at start state — no duplicate scan.
 	// Saves: 1 prefilter call per candidate + function dispatch overhead.
-	useDFADirect := (e.strategy == UseDFA || e.strategy == UseBoth) &&
+	useDFADirect := !e.longest && (e.strategy == UseDFA || e.strategy == UseBoth) &&
 		e.dfa != nil && e.reverseDFA != nil &&
 		state.dfaCache != nil && state.revDFACache != nil
 
@@ -310,7 +310,7 @@ func (e *Engine) Count(haystack []byte, n int) int {
 
 	// DFA fast path: call DFA functions directly, skip meta prefilter layer.
 	// SearchAt has integrated prefilter at start state — no duplicate scan.
-	useDFADirect := (e.strategy == UseDFA || e.strategy == UseBoth) &&
+	useDFADirect := !e.longest && (e.strategy == UseDFA || e.strategy == UseBoth) &&
 		e.dfa != nil && e.reverseDFA != nil &&
 		state.dfaCache != nil && state.revDFACache != nil
 
